@@ -125,6 +125,9 @@ def catalogue():
              files={"fakehome/schema.graphql": SCHEMA}, env={"HOME": "@job/fakehome"}),
         Case("cfg:tilde_files_to_include", "settings", "InvalidConfiguration", opts={"files_to_include": ["~/extra_helpers.py"]},
              files={"fakehome/extra_helpers.py": "X = 1\n"}, env={"HOME": "@job/fakehome"}),
+        Case("cfg:base_client_name_without_file", "settings", "InvalidConfiguration", opts={"base_client_name": "MyBase"}),
+        Case("cfg:base_client_file_without_name", "settings", "InvalidConfiguration", opts={"base_client_file_path": "my_base.py"},
+             files={"my_base.py": "class MyBase:\n    pass\n"}),
         Case("cfg:no_queries_path", "settings", "MissingConfiguration", drop={"queries_path"}),
         Case("cfg:queries_path_missing", "settings", "InvalidConfiguration", opts={"queries_path": "nope.graphql"}),
         Case("cfg:target_package_path_not_dir", "settings", "InvalidConfiguration", opts={"target_package_path": "schema.graphql"}),
